@@ -22,10 +22,11 @@ pub struct Args {
     pub replay: Option<String>,
     pub trace: bool,
     pub budget_ms: u64,
+    pub max_runs: u64,
 }
 
 fn parse_args() -> Args {
-    let mut a = Args { prop: "C04".into(), tier: "quick".into(), seed: 0, shard: 0, nshards: 1, out: None, replay: None, trace: false, budget_ms: 0 };
+    let mut a = Args { prop: "C04".into(), tier: "quick".into(), seed: 0, shard: 0, nshards: 1, out: None, replay: None, trace: false, budget_ms: 0, max_runs: 0 };
     let v: Vec<String> = std::env::args().collect();
     let mut i = 1;
     while i < v.len() {
@@ -60,6 +61,10 @@ fn parse_args() -> Args {
             }
             "--budget-ms" => {
                 a.budget_ms = nxt(i).parse().unwrap_or(0);
+                i += 1
+            }
+            "--max-runs" => {
+                a.max_runs = nxt(i).parse().unwrap_or(0);
                 i += 1
             }
             "--trace" => a.trace = true,
@@ -411,6 +416,9 @@ impl<'a> Engine<'a> {
     }
     /// Stop exploring: time budget used up, or the verdict is already clear (many violations).
     fn stop(&mut self) -> bool {
+        if self.args.max_runs > 0 && self.stats.runs >= self.args.max_runs {
+            return true;
+        }
         if self.stats.viol_count >= 25 {
             if !self.stopped_noted {
                 self.stopped_noted = true;
@@ -438,6 +446,11 @@ impl<'a> Engine<'a> {
         if sched.bound_ms == 0 {
             sched.bound_ms = 2000;
         }
+        if cfg!(miri) {
+            // interpretation is slow; expiries are only ever "inconclusive" there
+            sched.bound_ms = 600_000;
+            sched.grace_us = sched.grace_us.min(50);
+        }
         let t0 = Instant::now();
         if self.args.trace {
             println!("START {} plan={} sched={}", case_name(cx.case), plan_str(plan), sched_str(&sched));
@@ -451,6 +464,11 @@ impl<'a> Engine<'a> {
             // the bounded-progress rule was already applied twice in this shard; further expiries are not
             // escalated (and therefore not judged)
             self.stats.inconclusive.push(format!("{} plan={}: expiry not escalated ({})", case_name(cx.case), plan_str(plan), first));
+            self.stats.runs += 1;
+            return None;
+        }
+        if let (Outcome::Hung(first), true) = (rec.outcome.clone(), cfg!(miri)) {
+            self.stats.inconclusive.push(format!("{}: expiry under Miri ({})", case_name(cx.case), first));
             self.stats.runs += 1;
             return None;
         }
@@ -984,7 +1002,12 @@ pub fn main(cases: &'static [Case]) {
         return;
     }
     // shard selection: by program id so that C07 groups stay together
-    let mine: Vec<CaseCtx> = ctxs.into_iter().filter(|c| (c.case.prog.id as usize) % args.nshards == args.shard).collect();
+    let mut mine: Vec<CaseCtx> = ctxs.into_iter().filter(|c| (c.case.prog.id as usize) % args.nshards == args.shard).collect();
+    if args.max_runs > 0 && !mine.is_empty() {
+        // capped runs (Miri): start at a seed-dependent case so that different seeds cover different cases
+        let k = (args.seed as usize * 7) % mine.len();
+        mine.rotate_left(k);
+    }
     eng.run_prop(&mine);
     let st = &eng.stats;
     let viols: Vec<String> = st.viols.iter().map(|v| obj(&[("tag", esc(&v.tag)), ("msg", esc(&v.msg)), ("case", esc(&v.case)), ("replay", esc(&v.replay)), ("program", esc(&v.text))])).collect();
